@@ -29,6 +29,8 @@ def run(project, rep):
     rep.rule("F-R3", "inherited mutex groups are in force (S-R3) and validate_args overrides of classes with groups chain to the base (S-R6)")
     rep.run(S.s_r3_mutexes, schema, rep)
     rep.run(S.s_r6_constraints, schema, rep)
+    from .. import rules_purity as E
+    rep.run(E.e_r7_reiterable_class_tables, project, rep)
     rep.run(F.f_r4_order, schema, rep)
     rep.run(F.f_r5_counting, schema, rep)
     rep.run(T.t_r2, project, rep)
